@@ -21,6 +21,12 @@ func init() {
 
 func c02() []*Ob {
 	return []*Ob{
+		{Prop: "C02", ID: "C02.13", Engine: "PAIR(two sites)", Floor: 1,
+			Desc:  "an empty or inverted time window ends: nodeRange.Next stops on an ordering test, or — if it stops on equality with one value — getLIDsBorders searches the second border from the result of the first (so max >= min-1 always). With both relaxed a NOT query over a window with from > to returns documents for an empty range, and with total it never ends",
+			Check: func(c *Ctx) { rangeNodeEndsOnEmptyWindow(c) }},
+		{Prop: "C02", ID: "C02.14", Engine: "PAIR(two sites)", Floor: 1,
+			Desc:  "a field's lowest token is read back as it was written (shared rule with C03.11): the token table loader takes FieldData.MinVal from entry 0, or the writer gives a MinVal to the first entry of a field only",
+			Check: func(c *Ctx) { fieldMinValIsFirstEntrys(c) }},
 		{Prop: "C02", ID: "C02.12", Engine: "SIBLING(mirror)", Floor: 3,
 			Desc:  "a posting list that continues into the next LIDs block is read to its end: the ascending and descending block iterators of a sealed fraction stop only on the bound that lies ahead of them (shared rule with C03.7) — stopping on the other bound drops the in-range postings of the following blocks, the search returns too few ids and a NOT over that leaf too many",
 			Check: shared("C03.7")},
